@@ -620,6 +620,8 @@ package secp256k1
 //@   props C04, C15
 //@   requires inv(e)
 //@   ensures ok: result1 == 0
+//@   ensures id [C04]: imp(len(result0) == 1, result0[0] == 0 && pt(e) == gzero())
+//@   ensures pt [C04]: imp(len(result0) == 33, pt(e) != gzero() && result0[0] == 2 + fint(affy(pt(e))) % 2 && os2ip(result0[1:33]) == fint(affx(pt(e))))
 //@   returns fresh:1|33
 
 //@ func Element.UnmarshalBinary
@@ -628,6 +630,7 @@ package secp256k1
 //@   lens data 0,1,2,32,33,34,64,65,66,*
 //@   requires wf3(e)
 //@   ensures acc [C03]: (result == 0) == (accI(data) || accC(data) || accU(data))
+//@   ensures ok [C03,C10]: imp(result == 0, inv(e))
 //@   ensures err [C03]: imp(result != 0, unchanged(e))
 //@   modifies *e
 
@@ -636,13 +639,15 @@ package secp256k1
 //@   props C04
 //@   requires inv(e)
 //@   uses pt_identity_iff(fv(e.x), fv(e.y), fv(e.z))
-//@   ensures id [C04]: imp(len(hexbytes(result)) == 1, pt(e) == gzero())
-//@   ensures pt [C04]: imp(len(hexbytes(result)) == 33, pt(e) != gzero() && os2ip(hexbytes(result)[1:33]) == fint(affx(pt(e))))
+//@   ensures len [C04]: len(hexbytes(result)) == 1 || len(hexbytes(result)) == 33
+//@   ensures id [C04]: imp(len(hexbytes(result)) == 1, hexbytes(result)[0] == 0 && pt(e) == gzero())
+//@   ensures pt [C04]: imp(len(hexbytes(result)) == 33, pt(e) != gzero() && hexbytes(result)[0] == 2 + fint(affy(pt(e))) % 2 && os2ip(hexbytes(result)[1:33]) == fint(affx(pt(e))))
 
 //@ func Element.DecodeHex
 //@   mode int
 //@   requires wf3(e)
 //@   ensures acc [C03]: (result == 0) == (hexvalid(h) && (accI(hexbytes(h)) || accC(hexbytes(h)) || accU(hexbytes(h))))
+//@   ensures ok [C03,C10]: imp(result == 0, inv(e))
 //@   ensures err [C03]: imp(result != 0, unchanged(e))
 //@   modifies *e
 
